@@ -16,6 +16,54 @@ FILES = ["uxarray/grid/coordinates.py", "uxarray/grid/grid.py", "uxarray/grid/va
 COORDS = [f"{k}_{r}" for k in ("node", "edge", "face") for r in ("lon", "lat", "x", "y", "z")]
 
 
+def _following_calls(body, call_node, name):
+    """True if, in the statement list containing call_node, a later statement calls `name`."""
+    def search(stmts):
+        for i, st in enumerate(stmts):
+            if any(n is call_node for n in ast.walk(st)):
+                # directly in this list?  (not nested in a compound statement of this list)
+                direct = not isinstance(st, (ast.If, ast.For, ast.While, ast.Try, ast.With)) or any(n is call_node for n in ast.walk(getattr(st, "test", ast.Pass())))
+                if direct:
+                    for later in stmts[i + 1:]:
+                        for c in ast.walk(later):
+                            if isinstance(c, ast.Call) and (dotted(c.func) or [""])[-1] == name:
+                                return True
+                    return False
+                for fld in ("body", "orelse", "finalbody"):
+                    sub = getattr(st, fld, None)
+                    if sub:
+                        r = search(sub)
+                        if r is not None:
+                            return r
+        return None
+    return bool(search(body))
+
+
+def _accept_wrap_by_callers(run, P):
+    from ..loader import FuncInfo
+    from ..report import HOLDS, VIOLATION
+    for o in run.obs:
+        if o.rule != "RANGE/store-lon" or o.verdict != VIOLATION:
+            continue
+        fkey = o.construct.split(":store[")[0]
+        target = P.try_func(fkey)
+        if target is None:
+            continue
+        sites = []
+        for f in P.all_functions():
+            for c in ast.walk(f.node):
+                if isinstance(c, ast.Call):
+                    r = P.resolve_expr(f.module, c.func, f)
+                    if isinstance(r, FuncInfo) and r.node is target.node:
+                        sites.append((f, c))
+        bad = [(f, c) for f, c in sites if not _following_calls(f.node.body, c, "_set_desired_longitude_range")]
+        if sites and not bad:
+            o.verdict = HOLDS
+            o.detail = f"{target.qualname} stores the raw [0,360) longitude, but all {len(sites)} call sites wrap it with _set_desired_longitude_range right after populating"
+        elif bad:
+            o.detail += f"; and {bad[0][0].qualname} ({where(bad[0][0], bad[0][1])}) does not wrap the range after populating"
+
+
 def check(run):
     P = run.program
     run.explanation = (
@@ -36,6 +84,8 @@ def check(run):
     rules = {"UNIT/deg->trig", "UNIT/double-conversion", "UNIT/store", "ROLE/store", "ROLE/unpack", "RANGE/store-lon", "UNIT/unit-length", "IDX/store-space"}
     ok, bad = emit(run, R, rules, files=FILES)
     run.floor("F-UNIT", ok + bad, 20)
+    # a populate function may store the raw [0,360) longitude if EVERY caller wraps it right after populating
+    _accept_wrap_by_callers(run, P)
     # centres pass through _normalize_xyz on every return
     for fn in ("_construct_face_centroids", "_construct_edge_centroids"):
         f = P.func(f"uxarray/grid/coordinates.py:{fn}")
